@@ -392,6 +392,18 @@ def r3_mask_insertion(ctx, rule):
             ins = [c for c in calls_in(n) if isinstance(c.func, ast.Attribute) and c.func.attr == 'insert']
             if ins:
                 cands.append((n, ins))
+    # contradiction form: a counted loop whose range is computed once while its body grows the list (seed C13-e)
+    for n in walk_local(fn):
+        if isinstance(n, ast.For) and isinstance(n.iter, ast.Call) and call_name(n.iter) == 'range':
+            for c in calls_in(n):
+                if isinstance(c.func, ast.Attribute) and c.func.attr == 'insert' and \
+                        any(U(a) == 'len(%s)' % U(c.func.value) for a in n.iter.args):
+                    ctx.bad(rule, qual, 'for %s in %s: ... %s' % (U(n.target), U(n.iter), U(c)[:50]),
+                            'range(len(x)) is evaluated once, before the loop inserts into x: the elements pushed beyond the '
+                            'original length are never visited, so a later alpha transition of the same structure gets no '
+                            'capitalisation transition (its words are only ever guessed lower-case and the pre-terminal '
+                            'probability lacks the mask factor the scorer multiplies in)', {'loop': U(n.iter)}, n)
+                    return
     if len(cands) != 1 or len(cands[0][1]) != 1:
         ctx.unk(rule, qual, 'mask insertion loop not found')
         return
